@@ -162,4 +162,157 @@ theorem decode_encode_rep (f1 f2 : Nat) (b rest : List (BitVec 8)) (q : Rat) (hq
       DecodeFloat64LE f2 (bs ++ rest) = .ok (rest, .fin q, GoErr.nil) :=
   decode_encode f1 f2 b rest _ (F64.toBits_ofBits_rep q hq)
 
+/-! ## 3b. the decoder loop never refuses with `.missingStats` -/
+
+theorem liftDec_error {α} (x : Except DecErr α) (e : SkErr) (h : Sketch.liftDec x = .error e) :
+    e = .eof := by
+  cases x with
+  | error d => cases h; rfl
+  | ok a => cases h
+
+theorem map_ok_ne {α β} (o : Option α) (f : α → β) (e : SkErr) :
+    o.map (fun a => (Except.ok (f a) : Except SkErr β)) ≠ some (.error e) := by
+  cases o with
+  | none => intro h; cases h
+  | some a => intro h; cases h
+
+/-- the refusals that are not `.missingStats` -/
+def NoMS {α} (r : Option (Except SkErr α)) : Prop := ∀ e, r = some (.error e) → e ≠ .missingStats
+
+theorem NoMS_err {α} (e : SkErr) (h : e ≠ .missingStats) : NoMS (α := α) (some (.error e)) := by
+  intro e' h'; cases h'; exact h
+theorem NoMS_ok {α} (a : α) : NoMS (some (.ok a)) := by intro e h; cases h
+theorem NoMS_none {α} : NoMS (α := α) none := by intro e h; cases h
+theorem NoMS_map {α β} (o : Option α) (f : α → β) :
+    NoMS (o.map (fun a => (Except.ok (f a) : Except SkErr β))) := by
+  intro e h; exact absurd h (map_ok_ne o f e)
+theorem NoMS_lift {α β} (x : Except DecErr α) (e : SkErr) (h : Sketch.liftDec x = .error e) :
+    NoMS (α := β) (some (.error e)) := by
+  rw [liftDec_error x e h]; exact NoMS_err _ (by decide)
+
+theorem decItems_noMS (item : Store → Int → Bytes → Option (Except SkErr (Store × Int × Bytes)))
+    (hitem : ∀ st i bs, NoMS (item st i bs)) :
+    ∀ (n : Nat) (st : Store) (i : Int) (bs : Bytes), NoMS (Sketch.decItems item n st i bs) := by
+  intro n
+  induction n with
+  | zero => intro st i bs; exact NoMS_ok _
+  | succ n ih =>
+    intro st i bs
+    unfold Sketch.decItems
+    have hi := hitem st i bs
+    split
+    · exact NoMS_none
+    · rename_i e he; rw [he] at hi; exact NoMS_err _ (hi _ rfl)
+    · exact ih _ _ _
+
+theorem decodeStore_noMS (st : Store) (sub : Nat) (bs : Bytes) : NoMS (Sketch.decodeStore st sub bs) := by
+  unfold Sketch.decodeStore
+  split
+  · split
+    · rename_i e he; exact NoMS_lift _ e he
+    · apply decItems_noMS
+      intro st i bs
+      split
+      · rename_i e he; exact NoMS_lift _ e he
+      · split
+        · rename_i e he; exact NoMS_lift _ e he
+        · exact NoMS_map _ _
+  · split
+    · split
+      · rename_i e he; exact NoMS_lift _ e he
+      · apply decItems_noMS
+        intro st i bs
+        split
+        · rename_i e he; exact NoMS_lift _ e he
+        · exact NoMS_map _ _
+    · split
+      · split
+        · rename_i e he; exact NoMS_lift _ e he
+        · split
+          · rename_i e he; exact NoMS_lift _ e he
+          · split
+            · rename_i e he; exact NoMS_lift _ e he
+            · apply decItems_noMS
+              intro st i bs
+              split
+              · rename_i e he; exact NoMS_lift _ e he
+              · exact NoMS_map _ _
+      · exact NoMS_err _ (by decide)
+
+theorem fallback_noMS (aux : Sketch.DecAux) (f : Nat) (bs : Bytes) (e : SkErr)
+    (h : Sketch.fallback aux f bs = .error e) : e ≠ .missingStats := by
+  unfold Sketch.fallback at h
+  simp only at h
+  split at h
+  · cases h; decide
+  · split at h
+    · split at h
+      · rename_i e' he; cases h; rw [liftDec_error _ _ he]; decide
+      · cases h
+    · split at h
+      · split at h
+        · rename_i e' he; cases h; rw [liftDec_error _ _ he]; decide
+        · cases h
+      · split at h
+        · split at h
+          · rename_i e' he; cases h; rw [liftDec_error _ _ he]; decide
+          · cases h
+        · cases h; decide
+
+/-- **the decoder loop never refuses with `.missingStats`** (any fuel, sketch, auxiliary state, input) -/
+theorem decodeLoop_noMS : ∀ (n : Nat) (s : Sketch) (aux : Sketch.DecAux) (bs : Bytes),
+    NoMS (Sketch.decodeLoop n s aux bs) := by
+  intro n
+  induction n with
+  | zero =>
+    intro s aux bs
+    cases bs with
+    | nil => rw [Sketch.decodeLoop_nil]; exact NoMS_ok _
+    | cons f tl => exact NoMS_none
+  | succ n ih =>
+    intro s aux bs
+    cases bs with
+    | nil => rw [Sketch.decodeLoop_nil]; exact NoMS_ok _
+    | cons f tl =>
+      rcases Sketch.flagType_cases f with h | h | h | h
+      · rw [Sketch.loop_pos n s aux f tl h]
+        have hd := decodeStore_noMS s.pos (Wire.flagSub f) tl
+        split
+        · exact NoMS_none
+        · rename_i e he; rw [he] at hd; exact NoMS_err _ (hd _ rfl)
+        · exact ih _ _ _
+      · rw [Sketch.loop_neg n s aux f tl h]
+        have hd := decodeStore_noMS s.neg (Wire.flagSub f) tl
+        split
+        · exact NoMS_none
+        · rename_i e he; rw [he] at hd; exact NoMS_err _ (hd _ rfl)
+        · exact ih _ _ _
+      · rw [Sketch.loop_map n s aux f tl h]
+        split
+        · rename_i e he
+          rw [liftDec_error _ _ he]
+          split <;> exact NoMS_err _ (by decide)
+        · split
+          · exact NoMS_err _ (by decide)
+          · split
+            · rename_i e he; exact NoMS_lift _ e he
+            · split
+              · exact NoMS_err _ (by decide)
+              · exact NoMS_err _ (by decide)
+              · split
+                · split
+                  · exact ih _ _ _
+                  · exact NoMS_err _ (by decide)
+                · exact ih _ _ _
+      · by_cases hz : f = Sketch.zeroFlag
+        · subst hz
+          rw [Sketch.loop_zero]
+          split
+          · rename_i e he; exact NoMS_lift _ e he
+          · exact ih _ _ _
+        · rw [Sketch.loop_fallback n s aux f tl h hz]
+          split
+          · rename_i e he; exact NoMS_err _ (fallback_noMS _ _ _ _ he)
+          · exact ih _ _ _
+
 end DDS.GenF64LE
